@@ -706,59 +706,50 @@ func (x *Exec) doAppend(st *State, fr *Frame, in ssa.Instruction, call *ssa.Call
 	newLen := "(+ " + s.Len + " " + addLen + ")"
 	fits := "(<= " + newLen + " " + s.Cap + ")"
 	cs := comps(s.Elem)
-	write := func(stt *State, arr, off string) {
-		// new contents: positions [off+len, off+len+addLen) take src elements
-		for _, c := range cs {
-			class := "E|" + typeKey(s.Elem) + c.Suffix
-			h := x.heapArr(stt, class, arrSort(2, c.Sort))
-			var srcElem func(q string) string
-			switch sv := src.(type) {
-			case Slice:
-				srcElem = func(q string) string {
-					return "(select (select " + h + " " + sv.Arr + ") (+ " + sv.Off + " " + q + "))"
-				}
-			case Str:
-				srcElem = func(q string) string { return "(select " + sv.Base + " (+ " + sv.Off + " " + q + "))" }
-			}
-			if n, isLit := smtIntLit(addLen); isLit && n <= 8 {
-				cur := "(select " + h + " " + arr + ")"
-				if arr != s.Arr {
-					cur = x.copiedPrefix(stt, h, s, arr, c.Sort)
-				}
-				for j := int64(0); j < n; j++ {
-					cur = "(store " + cur + " (+ " + off + " " + s.Len + " " + strconv.FormatInt(j, 10) + ") " + srcElem(strconv.FormatInt(j, 10)) + ")"
-				}
-				stt.heap[class] = "(store " + h + " " + arr + " " + cur + ")"
-				continue
-			}
-			nc := smtSym(x.fresh("appended", "(Array Int "+c.Sort+")"))
-			qvCounter++
-			q := fmt.Sprintf("q!%d", qvCounter)
-			x.assume(fmt.Sprintf("(forall ((%s Int)) (=> (and (<= 0 %s) (< %s %s)) (= (select %s (+ %s %s %s)) %s)))", q, q, q, addLen, nc, off, s.Len, q, srcElem(q)))
-			// old prefix preserved
-			x.assume(fmt.Sprintf("(forall ((%s Int)) (=> (and (<= 0 %s) (< %s %s)) (= (select %s (+ %s %s)) (select (select %s %s) (+ %s %s)))))", q, q, q, s.Len, nc, off, q, h, s.Arr, s.Off, q))
-			if arr == s.Arr {
-				// in place: everything outside the written window is unchanged
-				x.assume(fmt.Sprintf("(forall ((%s Int)) (=> (or (< %s (+ %s %s)) (>= %s (+ %s %s %s))) (= (select %s %s) (select (select %s %s) %s))))", q, q, off, s.Len, q, off, s.Len, addLen, nc, q, h, s.Arr, q))
-			}
-			stt.heap[class] = "(store " + h + " " + arr + " " + nc + ")"
-		}
+	// No fork: the result is in place when capacity suffices and a fresh array
+	// otherwise; both cases are merged with ite so that a sequence of appends
+	// does not multiply the number of paths.
+	freshArr := x.newRef(st)
+	ncap := smtSym(x.fresh("newcap", "Int"))
+	x.assume("(and (>= " + ncap + " " + newLen + ") (<= " + ncap + " 4611686018427387904))")
+	arr := sIte(fits, s.Arr, freshArr)
+	off := sIte(fits, s.Off, "0")
+	if !x.classAllowed("E|"+typeKey(s.Elem)) && x.fc != nil && x.fc.HasAssign && x.owns(st) {
+		// in-place case is a write into the argument's backing array
+		x.sess.Push()
+		x.assume(fits)
+		x.frameCheckRef(st, fr, in, s.Arr, "array (append in place)")
+		x.sess.Pop()
 	}
-	x.fork(st, fits,
-		func(s1 *State) {
-			if !x.classAllowed("E|" + typeKey(s.Elem)) {
-				x.frameCheckRef(s1, fr, in, s.Arr, "array (append in place)")
+	for _, c := range cs {
+		class := "E|" + typeKey(s.Elem) + c.Suffix
+		h := x.heapArr(st, class, arrSort(2, c.Sort))
+		var srcElem func(q string) string
+		switch sv := src.(type) {
+		case Slice:
+			srcElem = func(q string) string {
+				return "(select (select " + h + " " + sv.Arr + ") (+ " + sv.Off + " " + q + "))"
 			}
-			write(s1, s.Arr, s.Off)
-			k(s1, Outcome{Vals: []Val{Slice{s.Arr, s.Off, newLen, s.Cap, s.Elem}}})
-		},
-		func(s2 *State) {
-			arr := x.newRef(s2)
-			ncap := smtSym(x.fresh("newcap", "Int"))
-			x.assume("(and (>= " + ncap + " " + newLen + ") (<= " + ncap + " 4611686018427387904))")
-			write(s2, arr, "0")
-			k(s2, Outcome{Vals: []Val{Slice{arr, "0", newLen, ncap, s.Elem}}})
-		})
+		case Str:
+			srcElem = func(q string) string { return "(select " + sv.Base + " (+ " + sv.Off + " " + q + "))" }
+		}
+		nc := smtSym(x.fresh("appended", "(Array Int "+c.Sort+")"))
+		qvCounter++
+		q := fmt.Sprintf("q!%d", qvCounter)
+		if n, isLit := smtIntLit(addLen); isLit && n <= 8 {
+			for jj := int64(0); jj < n; jj++ {
+				x.assume("(= (select " + nc + " (+ " + off + " " + s.Len + " " + strconv.FormatInt(jj, 10) + ")) " + srcElem(strconv.FormatInt(jj, 10)) + ")")
+			}
+		} else {
+			x.assume(fmt.Sprintf("(forall ((%s Int)) (=> (and (<= 0 %s) (< %s %s)) (= (select %s (+ %s %s %s)) %s)))", q, q, q, addLen, nc, off, s.Len, q, srcElem(q)))
+		}
+		// old elements preserved
+		x.assume(fmt.Sprintf("(forall ((%s Int)) (=> (and (<= 0 %s) (< %s %s)) (= (select %s (+ %s %s)) (select (select %s %s) (+ %s %s)))))", q, q, q, s.Len, nc, off, q, h, s.Arr, s.Off, q))
+		// in place: everything outside the written window is unchanged
+		x.assume(fmt.Sprintf("(=> %s (forall ((%s Int)) (=> (or (< %s (+ %s %s)) (>= %s (+ %s %s %s))) (= (select %s %s) (select (select %s %s) %s)))))", fits, q, q, s.Off, s.Len, q, s.Off, s.Len, addLen, nc, q, h, s.Arr, q))
+		st.heap[class] = "(store " + h + " " + arr + " " + nc + ")"
+	}
+	k(st, Outcome{Vals: []Val{Slice{arr, off, newLen, sIte(fits, s.Cap, ncap), s.Elem}}})
 }
 
 func (x *Exec) copiedPrefix(st *State, h string, s Slice, arr string, sort string) string {
